@@ -388,8 +388,11 @@ def trace_row(prog, o):
 def tlc_validate(ctx, rows, verdicts, tag):
     """TLC judges real observations with the recursive definitions of layer A; must agree with the comparison done here"""
     CH = 400
-    for off in range(0, len(rows), CH):
-        chunk = rows[off:off + CH]
+    offs = list(range(0, len(rows), CH))
+    if len(offs) > 1 and len(rows) - offs[-1] < CH // 2:      # no tiny last chunk (a JVM start costs more than the traces)
+        offs.pop()
+    for n, off in enumerate(offs):
+        chunk = rows[off:(offs[n + 1] if n + 1 < len(offs) else len(rows))]
         f = ctx.path("traces-%s-%d.ndjson" % (tag, off))
         vlib.write_ndjson(f, chunk)
         r = ctx.tlc("Resolve", "Trace_Resolve", "Trace_Resolve", files={"traces.ndjson": f}, timeout=7000,
